@@ -34,11 +34,21 @@ hasperr:
 		case db.compPerErrC <- err:
 		case db.writeLockC <- struct{}{}: db.compWriteLocking = true
 		case <-db.closeC:
-			if db.compWriteLocking { <-db.writeLockC }
+			if db.compWriteLocking { close(db.compLockedC) }   // as found (until wp51): { <-db.writeLockC }
 			return
 	} }
 }
 ```
+
+The `closeC` case of `hasperr` exists in two recognised forms.  *As found*: `if db.compWriteLocking { <-db.writeLockC }`
+— the goroutine gives the write lock back so that `Close` (`db.writeLockC <- struct{}{}`) can take it; a writer parked
+in its `select` may take it first (`C09.readonly_write_slips_through_on_close`).  *Now*
+(`MCfg.hasperrKeepsLock`): `if db.compWriteLocking { close(db.compLockedC) }` — the goroutine keeps the lock and tells
+`Close`, which waits in `select { case db.writeLockC <- struct{}{}: case <-db.compLockedC: }`.  In both forms the
+machine passes through the label `closing` ("inside the `closeC` case with `compWriteLocking` set"): as found it
+leaves it by the blocking receive (`Locks.Step.ehTake`); now it leaves it together with `Close`'s receive from
+`compLockedC` (`Locks.Step.clAcqKept`: closing a channel never blocks and nobody but `Close`'s `select` looks at
+`compLockedC`, so "close the channel, return" and "`Close` takes the `compLockedC` arm" are one step of the model).
 
 The machine is described by *which `select` cases and `switch` cases exist* (`MCfg`, one flag per case); the
 functions below say, for a configuration, which channel operation is offered in which label and where a
@@ -52,8 +62,8 @@ namespace GoLevel.CompErr
 inductive EK | nil | transient | readonly | corrupt
 deriving DecidableEq, Repr
 
-/-- the labels of `compactionError`; `closing`: inside the `closeC` case of `hasperr`, at `<-db.writeLockC`
-(a blocking receive); `exited`: returned -/
+/-- the labels of `compactionError`; `closing`: inside the `closeC` case of `hasperr` with `compWriteLocking` set —
+at `<-db.writeLockC` (a blocking receive; as found), or at `close(db.compLockedC)` (now); `exited`: returned -/
 inductive Eh | noerr | haserr | hasperr | closing | exited
 deriving DecidableEq, Repr
 
@@ -94,18 +104,23 @@ structure MCfg where
   hasperrClose : Bool
   /-- `hasperr`, in the `closeC` case: `if db.compWriteLocking { <-db.writeLockC }` -/
   hasperrGivesBack : Bool
+  /-- `hasperr`, in the `closeC` case: `if db.compWriteLocking { close(db.compLockedC) }` (the lock is kept for
+  `Close`; since the repair of D42) -/
+  hasperrKeepsLock : Bool
   /-- nothing else: the function is exactly three labelled `for { select { … } }` loops, every `select` case
   and `switch` case is one of the above, `default:` of `haserr` is empty, `hasperr` does not receive from
   `compErrSetC` -/
   shape : Bool
 deriving DecidableEq, Repr
 
-/-- the function as printed above -/
-def MCfg.asCoded : MCfg :=
+/-- the function as printed above: `keeps = true` with `close(db.compLockedC)` in the `closeC` case of `hasperr`
+(the source now), `keeps = false` with `<-db.writeLockC` there (the source as found) -/
+def MCfg.asCoded (keeps : Bool) : MCfg :=
   { noerrRecv := true, noerrNil := true, noerrRO := true, noerrCorrupt := true, noerrOther := true,
     noerrClose := true, haserrErr := true, haserrRecv := true, haserrNil := true, haserrRO := true,
     haserrCorrupt := true, haserrClose := true, hasperrErr := true, hasperrPerErr := true,
-    hasperrLock := true, hasperrClose := true, hasperrGivesBack := true, shape := true }
+    hasperrLock := true, hasperrClose := true, hasperrGivesBack := !keeps, hasperrKeepsLock := keeps,
+    shape := true }
 
 /-- the function as it is in the source now (regenerated facts) -/
 def codeM : MCfg :=
@@ -114,7 +129,8 @@ def codeM : MCfg :=
     haserrErr := Gen.ceHaserrErr, haserrRecv := Gen.ceHaserrRecv, haserrNil := Gen.ceHaserrNil,
     haserrRO := Gen.ceHaserrRO, haserrCorrupt := Gen.ceHaserrCorrupt, haserrClose := Gen.ceHaserrClose,
     hasperrErr := Gen.ceHasperrErr, hasperrPerErr := Gen.ceHasperrPerErr, hasperrLock := Gen.ceHasperrLock,
-    hasperrClose := Gen.ceHasperrClose, hasperrGivesBack := Gen.ceHasperrGivesBack, shape := Gen.ceShape }
+    hasperrClose := Gen.ceHasperrClose, hasperrGivesBack := Gen.ceHasperrGivesBack,
+    hasperrKeepsLock := Gen.ceHasperrKeepsLockOnClose, shape := Gen.ceShape }
 
 /-- `compErrSetC` is received in this label -/
 def recvs (m : MCfg) : Eh → Bool
@@ -163,9 +179,11 @@ def closes (m : MCfg) : Eh → Bool
   | .hasperr => m.hasperrClose
   | _ => false
 
-/-- the `closeC` case: `return`, in `hasperr` after `if db.compWriteLocking { <-db.writeLockC }` -/
+/-- the `closeC` case: `return`, in `hasperr` after `if db.compWriteLocking { <-db.writeLockC }` resp.
+`if db.compWriteLocking { close(db.compLockedC) }` (label `closing`) -/
 def onClose (m : MCfg) (e : Eh) (compWriteLocking : Bool) : Eh :=
-  if e = .hasperr ∧ m.hasperrGivesBack = true ∧ compWriteLocking = true then .closing else .exited
+  if e = .hasperr ∧ (m.hasperrGivesBack || m.hasperrKeepsLock) = true ∧ compWriteLocking = true then .closing
+  else .exited
 
 @[simp] theorem recvs_hasperr (m : MCfg) : recvs m .hasperr = false := rfl
 @[simp] theorem recvs_closing (m : MCfg) : recvs m .closing = false := rfl
@@ -201,20 +219,22 @@ theorem offLock_hasperr (m : MCfg) (e : Eh) (h : offLock m e = true) : e = .hasp
 
 /-! ### the machine as coded -/
 
-@[simp] theorem recvs_asCoded (e : Eh) : recvs .asCoded e = true ↔ e = .noerr ∨ e = .haserr := by
+@[simp] theorem recvs_asCoded (k : Bool) (e : Eh) : recvs (.asCoded k) e = true ↔ e = .noerr ∨ e = .haserr := by
   cases e <;> simp [recvs, MCfg.asCoded]
-@[simp] theorem offErr_asCoded (e : Eh) : offErr .asCoded e = true ↔ e = .haserr ∨ e = .hasperr := by
+@[simp] theorem offErr_asCoded (k : Bool) (e : Eh) : offErr (.asCoded k) e = true ↔ e = .haserr ∨ e = .hasperr := by
   cases e <;> simp [offErr, MCfg.asCoded]
-@[simp] theorem offPer_asCoded (e : Eh) : offPer .asCoded e = true ↔ e = .hasperr := by
+@[simp] theorem offPer_asCoded (k : Bool) (e : Eh) : offPer (.asCoded k) e = true ↔ e = .hasperr := by
   cases e <;> simp [offPer, MCfg.asCoded]
-@[simp] theorem offLock_asCoded (e : Eh) : offLock .asCoded e = true ↔ e = .hasperr := by
+@[simp] theorem offLock_asCoded (k : Bool) (e : Eh) : offLock (.asCoded k) e = true ↔ e = .hasperr := by
   cases e <;> simp [offLock, MCfg.asCoded]
-@[simp] theorem closes_asCoded (e : Eh) :
-    closes .asCoded e = true ↔ e = .noerr ∨ e = .haserr ∨ e = .hasperr := by
+@[simp] theorem closes_asCoded (k : Bool) (e : Eh) :
+    closes (.asCoded k) e = true ↔ e = .noerr ∨ e = .haserr ∨ e = .hasperr := by
   cases e <;> simp [closes, MCfg.asCoded]
 
-@[simp] theorem asCoded_noerrRO : MCfg.asCoded.noerrRO = true := rfl
-@[simp] theorem asCoded_haserrRO : MCfg.asCoded.haserrRO = true := rfl
+@[simp] theorem asCoded_noerrRO (k : Bool) : (MCfg.asCoded k).noerrRO = true := rfl
+@[simp] theorem asCoded_haserrRO (k : Bool) : (MCfg.asCoded k).haserrRO = true := rfl
+@[simp] theorem asCoded_givesBack (k : Bool) : (MCfg.asCoded k).hasperrGivesBack = !k := rfl
+@[simp] theorem asCoded_keepsLock (k : Bool) : (MCfg.asCoded k).hasperrKeepsLock = k := rfl
 
 /-- the transitions of the machine as coded -/
 def nextC : Eh → EK → Eh
@@ -226,11 +246,11 @@ def nextC : Eh → EK → Eh
   | .haserr, _ => .hasperr
   | e, _ => e
 
-@[simp] theorem next_asCoded (e : Eh) (k : EK) : next .asCoded e k = nextC e k := by
+@[simp] theorem next_asCoded (b : Bool) (e : Eh) (k : EK) : next (.asCoded b) e k = nextC e k := by
   cases e <;> cases k <;> rfl
 
-@[simp] theorem onClose_asCoded (e : Eh) (w : Bool) :
-    onClose .asCoded e w = if e = .hasperr ∧ w = true then .closing else .exited := by
-  simp [onClose, MCfg.asCoded]
+@[simp] theorem onClose_asCoded (k : Bool) (e : Eh) (w : Bool) :
+    onClose (.asCoded k) e w = if e = .hasperr ∧ w = true then .closing else .exited := by
+  cases k <;> simp [onClose, MCfg.asCoded]
 
 end GoLevel.CompErr
